@@ -236,7 +236,11 @@ class Constructor:
                 raise RecognitionError(
                         '{}\n{}'.format(key_node.start_mark, msg))
 
-            if key in argspec.args and key in argspec.annotations:
+            # a key called _yatiml_extra is an extra attribute, not the
+            # _yatiml_extra parameter itself
+            if (
+                    key in argspec.args and key in argspec.annotations
+                    and key != '_yatiml_extra'):
                 if not self.__type_matches(value, argspec.annotations[key]):
                     value_node = [
                             vn for kn, vn in node.value if kn.value == key][0]
